@@ -124,21 +124,29 @@ Proof.
     + split; [apply frame_refl | rewrite E; apply ks_read; reflexivity].
     + split; [apply s_write_frame | rewrite s_write_at; constructor].
 Qed.
-Lemma s_upd_spec s f k d : let '(s', r) := s_upd s f k d in frame k s s' /\ kstep (smap s k) (smap s' k) r.
+(* an update is handed the store's current row (the handler's obligation, see [safe]): its answer is the stored row *)
+Lemma s_upd_spec s f k d pre : smap s k = pre ->
+  let '(s', r) := s_upd s f k d pre in frame k s s' /\ kstep (smap s k) (smap s' k) r.
 Proof.
-  unfold s_upd. destruct (ferr f) eqn:Ef; [split; [apply frame_refl | constructor; eapply ferr_nodup; eauto]|].
+  intros Hpre. unfold s_upd. destruct (ferr f) eqn:Ef; [split; [apply frame_refl | constructor; eapply ferr_nodup; eauto]|].
   destruct (smap s k) eqn:E.
   - destruct (is_fnil f).
     + split; [apply s_unrow_frame | rewrite s_unrow_at; constructor].
-    + split; [apply s_write_frame | rewrite s_write_at; constructor].
+    + split; [apply s_write_frame | rewrite s_write_at, <- Hpre; constructor].
   - split; [apply frame_refl | rewrite E; constructor; discriminate].
 Qed.
-Lemma s_upsert_spec s f k d : let '(s', r) := s_upsert s f k d in frame k s s' /\ kstep (smap s k) (smap s' k) r.
+
+(* an upsert may be handed nil although a row exists (cache miss): then its answer is not the stored row *)
+Inductive ustep (pre sv : val) : val -> sres -> Prop :=
+  | us_err e : e <> EDupKey -> ustep pre sv sv (SErr e)
+  | us_ok sv' v : (pre = sv -> sv' = v) -> ustep pre sv sv' (SOk v).
+
+Lemma s_upsert_spec s f k d pre : let '(s', r) := s_upsert s f k d pre in frame k s s' /\ ustep pre (smap s k) (smap s' k) r.
 Proof.
   unfold s_upsert. destruct (ferr f) eqn:Ef; [split; [apply frame_refl | constructor; eapply ferr_nodup; eauto]|].
   destruct (is_fnil f).
-  - split; [apply s_unrow_frame | rewrite s_unrow_at; constructor].
-  - split; [apply s_write_frame | rewrite s_write_at; constructor].
+  - split; [apply s_unrow_frame | rewrite s_unrow_at; constructor; reflexivity].
+  - split; [apply s_write_frame | rewrite s_write_at; constructor; intros ->; reflexivity].
 Qed.
 Lemma s_delete_spec s f k : let '(s', r) := s_delete s f k in frame k s s' /\
   match r with Some _ => s' = s | None => smap s' k = None end.
@@ -174,7 +182,7 @@ Fixpoint safe (k : Z) (sv0 cm : val) (p : prog) (touched : bool) (cv : option va
   | PAdd k' d c => k' = k /\ forall sv' r, kstep sv sv' r -> safe k sv0 cm (c r) true cv sv'
   | PUpd k' d pre c => k' = k /\ sv = pre /\ sv0 = pre /\ forall sv' r, kstep sv sv' r -> safe k sv0 cm (c r) true cv sv'
   | PUpsert k' d pre c => k' = k /\ (forall x, pre = Some x -> sv = Some x /\ sv0 = Some x)
-                          /\ forall sv' r, kstep sv sv' r -> safe k sv0 cm (c r) true cv sv'
+                          /\ forall sv' r, ustep pre sv sv' r -> safe k sv0 cm (c r) true cv sv'
   | PDelete k' c => k' = k /\ forall r, (match r with Some e => e <> EDupKey | None => True end) ->
                       safe k sv0 cm (c r) true cv (match r with Some _ => sv | None => None end)
   end.
@@ -193,6 +201,7 @@ Ltac go := cbn [safe finish fail_or]; unfold I3;
   | |- forall _, _ => intro; go
   | H : _ \/ _ |- _ => destruct H; go
   | H : kstep _ _ ?r |- _ => apply kstep_inv in H; destruct r; [| destruct H]; go
+  | H : ustep _ _ _ _ |- _ => destruct H as [? ?|? ? H]; [|try specialize (H eq_refl)]; go
   | |- context [is_nf ?e] => destruct (is_nf e); go
   | |- context [match ?r with Some _ => _ | None => _ end] => is_var r; destruct r; go
   | _ => leaf
@@ -249,11 +258,11 @@ Proof.
     inversion Hm; subst; clear Hm. cbn [wc wsr touch is_store_ev ev_key pre_good].
     split; [apply Hs; exact Hk|]. split; [reflexivity|]. split; [exact I|]. split; [exact Hf|]. split; [intros x v _ Hx; exact Hx | reflexivity].
   - (* Upd *) destruct Hs as (_ & -> & Hpre & Hpre0 & Hs). destruct (nextf fs) as [f fs1].
-    pose proof (s_upd_spec (wsr s) f k d) as Hl. destruct (s_upd (wsr s) f k d) as [st r]. destruct Hl as (Hf & Hk).
+    pose proof (s_upd_spec (wsr s) f k d pre Hpre) as Hl. destruct (s_upd (wsr s) f k d pre) as [st r]. destruct Hl as (Hf & Hk).
     inversion Hm; subst; clear Hm. cbn [wc wsr touch is_store_ev ev_key pre_good].
     split; [apply Hs; exact Hk|]. split; [reflexivity|]. split; [first [exact Hpre0 | reflexivity]|]. split; [exact Hf|]. split; [intros x v _ Hx; exact Hx | reflexivity].
   - (* Upsert *) destruct Hs as (_ & -> & Hpre & Hs). destruct (nextf fs) as [f fs1].
-    pose proof (s_upsert_spec (wsr s) f k d) as Hl. destruct (s_upsert (wsr s) f k d) as [st r]. destruct Hl as (Hf & Hk).
+    pose proof (s_upsert_spec (wsr s) f k d pre) as Hl. destruct (s_upsert (wsr s) f k d pre) as [st r]. destruct Hl as (Hf & Hk).
     inversion Hm; subst; clear Hm. cbn [wc wsr touch is_store_ev ev_key pre_good].
     split; [apply Hs; exact Hk|]. split; [reflexivity|].
     split; [destruct pre as [x|]; [apply (Hpre x); reflexivity | exact I]|].
@@ -281,8 +290,8 @@ Proof.
   - destruct (c_get (wc s) k). reflexivity.
   - destruct (nextf fs) as [f fs1]. destruct (s_load (wsr s) f k). reflexivity.
   - destruct (nextf fs) as [f fs1]. destruct (s_add (wsr s) f k d). reflexivity.
-  - destruct (nextf fs) as [f fs1]. destruct (s_upd (wsr s) f k d). reflexivity.
-  - destruct (nextf fs) as [f fs1]. destruct (s_upsert (wsr s) f k d). reflexivity.
+  - destruct (nextf fs) as [f fs1]. destruct (s_upd (wsr s) f k d pre). reflexivity.
+  - destruct (nextf fs) as [f fs1]. destruct (s_upsert (wsr s) f k d pre). reflexivity.
   - destruct (nextf fs) as [f fs1]. destruct (s_delete (wsr s) f k). reflexivity.
 Qed.
 
@@ -297,8 +306,8 @@ Proof.
   - inversion Hm; subst. auto.
   - destruct (nextf fs) as [f fs1]. destruct (s_load (wsr s) f k). inversion Hm; subst. auto.
   - destruct (nextf fs) as [f fs1]. destruct (s_add (wsr s) f k d). inversion Hm; subst. auto.
-  - destruct (nextf fs) as [f fs1]. destruct (s_upd (wsr s) f k d). inversion Hm; subst. auto.
-  - destruct (nextf fs) as [f fs1]. destruct (s_upsert (wsr s) f k d). inversion Hm; subst. auto.
+  - destruct (nextf fs) as [f fs1]. destruct (s_upd (wsr s) f k d pre). inversion Hm; subst. auto.
+  - destruct (nextf fs) as [f fs1]. destruct (s_upsert (wsr s) f k d pre). inversion Hm; subst. auto.
   - destruct (nextf fs) as [f fs1]. destruct (s_delete (wsr s) f k). inversion Hm; subst. auto.
 Qed.
 
@@ -313,8 +322,8 @@ Proof.
   - destruct (c_get (wc s) k); discriminate.
   - destruct (nextf fs) as [f fs1]. destruct (s_load (wsr s) f k); discriminate.
   - destruct (nextf fs) as [f fs1]. destruct (s_add (wsr s) f k d); discriminate.
-  - destruct (nextf fs) as [f fs1]. destruct (s_upd (wsr s) f k d); discriminate.
-  - destruct (nextf fs) as [f fs1]. destruct (s_upsert (wsr s) f k d); discriminate.
+  - destruct (nextf fs) as [f fs1]. destruct (s_upd (wsr s) f k d pre); discriminate.
+  - destruct (nextf fs) as [f fs1]. destruct (s_upsert (wsr s) f k d pre); discriminate.
   - destruct (nextf fs) as [f fs1]. destruct (s_delete (wsr s) f k); discriminate.
 Qed.
 
@@ -505,11 +514,11 @@ Proof.
 Qed.
 
 (* a callback that fails - injected or the store's own refusal - leaves the store as it was *)
-Theorem failed_callback_changes_nothing s f k d :
+Theorem failed_callback_changes_nothing s f k d pre :
   (forall e, snd (s_load s f k) = SErr e -> fst (s_load s f k) = s)
   /\ (forall e, snd (s_add s f k d) = SErr e -> fst (s_add s f k d) = s)
-  /\ (forall e, snd (s_upd s f k d) = SErr e -> fst (s_upd s f k d) = s)
-  /\ (forall e, snd (s_upsert s f k d) = SErr e -> fst (s_upsert s f k d) = s)
+  /\ (forall e, snd (s_upd s f k d pre) = SErr e -> fst (s_upd s f k d pre) = s)
+  /\ (forall e, snd (s_upsert s f k d pre) = SErr e -> fst (s_upsert s f k d pre) = s)
   /\ (forall e, snd (s_delete s f k) = Some e -> fst (s_delete s f k) = s).
 Proof.
   unfold s_load, s_add, s_upd, s_upsert, s_delete.
